@@ -865,7 +865,7 @@ def drive(a, pid, workdir, t0, cli):
             return 1
         print(f"replay: no report reproduced (saw {sorted(keys)})")
         return 0
-    budget = 120 if a.tier == "quick" else 900
+    budget = 400 if a.tier == "quick" else 1800
     entries = list(ENTRIES)
     with ThreadPoolExecutor(16) as ex:
         results = list(ex.map(lambda e: run_entry(e, a.tier, a.seed, workdir, env,
